@@ -2,15 +2,17 @@
    theorems (evaluated by checks/c17.py on every shard; reported in the evidence as a
    measured non-vacuity figure, never as a verdict). *)
 From Coq Require Import List Bool NArith.
-From Verif Require Import Base.Bytes Idl.Ast Idl.Dump Idl.DumpFacts Idl.DumpLexFacts Idl.DumpParseFacts Corr.C17.
+From Verif Require Import Base.Bytes Idl.Ast Idl.Dump Idl.DumpFacts Idl.DumpLexFacts Idl.DumpParseFacts Idl.DumpResolveFacts Corr.C17.
 Import ListNotations.
 
-(* (cases with dump_ok, cases with view_ok, cases with both, cases with lex_ok) *)
-Definition domain_counts (cs : list case) : N * N * N * N :=
+(* (cases with dump_ok, cases with view_ok, cases with both, cases with lex_ok, cases with
+   parsed_ok = the per-file hypothesis of dump_passes_semantic) *)
+Definition domain_counts (cs : list case) : N * N * N * N * N :=
   fold_left (fun acc c =>
-    let '(d, v, b, l) := acc in
+    let '(d, v, b, l, q) := acc in
     let fmt := fmt_of (c_fmt c) in
     let dk := dump_ok fmt (c_file c) in
     let vk := view_ok fmt (c_file c) in
     ((if dk then d + 1 else d), (if vk then v + 1 else v), (if dk && vk then b + 1 else b),
-     (if lex_ok fmt (c_file c) then l + 1 else l))%N) cs (0, 0, 0, 0)%N.
+     (if lex_ok fmt (c_file c) then l + 1 else l),
+     (if parsed_ok fmt (c_file c) then q + 1 else q))%N) cs (0, 0, 0, 0, 0)%N.
